@@ -86,6 +86,11 @@ def sh(cmd, cwd=None, timeout=None, env=None, mem_gb=None, inp=None):
             resource.setrlimit(resource.RLIMIT_AS, (b, b))
         os.setsid()
     t0 = time.time()
+    rssf = None
+    if mem_gb:  # measured per process (RUSAGE_CHILDREN would report the maximum over all children so far)
+        import tempfile
+        rssf = tempfile.mktemp(prefix="rss_", dir=os.path.join(VERIF, ".work"))
+        cmd = ["/usr/bin/time", "-f", "%M", "-o", rssf] + list(cmd)
     p = subprocess.Popen(cmd, cwd=cwd, env=env, stdout=subprocess.PIPE, stderr=subprocess.PIPE, preexec_fn=lim,
                          stdin=subprocess.PIPE if inp is not None else subprocess.DEVNULL)
     try:
@@ -98,8 +103,17 @@ def sh(cmd, cwd=None, timeout=None, env=None, mem_gb=None, inp=None):
             p.kill()
         out, err = p.communicate()
         to = True
-    ru = resource.getrusage(resource.RUSAGE_CHILDREN)
-    return p.returncode, out.decode(errors="replace"), err.decode(errors="replace"), to, time.time() - t0, ru.ru_maxrss
+    rss = 0
+    if rssf:
+        try:
+            rss = int(open(rssf).read().split()[-1])
+        except Exception:
+            rss = 0
+        try:
+            os.remove(rssf)
+        except OSError:
+            pass
+    return p.returncode, out.decode(errors="replace"), err.decode(errors="replace"), to, time.time() - t0, rss
 
 
 def compile_source_bc(src, outdir):
@@ -223,7 +237,10 @@ def inputs_from_trace(trace):
             x = int(b, 2)
         vals[int(m.group(1))] = x
     n = max(vals) + 1 if vals else 0
-    return [vals.get(i, 0) for i in range(n)]
+    r = [vals.get(i, 0) for i in range(n)]
+    while r and r[-1] == 0:  # unread slots (the native runtime returns 0 when the vector is exhausted)
+        r.pop()
+    return r
 
 
 def native_ir_binary(q, wd):
